@@ -13,6 +13,8 @@ let () =
          let ts = tokens_of (String.trim toks) in
          let r = if mode = "frag" then Builder.parse_fragment b t0 (n_of_int 0) ts
            else Builder.parse_document b t0 (n_of_int 0) (n_of_int (int_of_string srclen)) ts in
-         print_endline (case ^ " " ^ parsed_text b r)
+         (* the shape Proofs/BuilderTotal.v assumes of xmlparser's token stream is checked on every stream it produced *)
+         if not (Builder.stream_shape false ts) then print_endline (case ^ " TOKEN-SHAPE-BROKEN")
+         else print_endline (case ^ " " ^ parsed_text b r)
        | _ -> failwith "parse: bad head")
     | _ -> failwith "parse: bad case line")
